@@ -121,7 +121,7 @@ class Ex:
         if r == "un":
             return ("un", rv["op"], self._operand(rv["a"], depth))
         if r == "cast":
-            return ("cast", self._operand(rv["o"], depth), ty_str(rv["ty"]), rv["kind"])
+            return ("cast", self._operand(rv["o"], depth), ty_str(rv["ty"]), rv["kind"], ty_str(rv.get("from")))
         if r == "discr":
             return ("discr", self.place(self.tr.nplace(rv["p"]), depth))
         if r == "agg":
